@@ -216,6 +216,24 @@ class Ctx:
         self.extra[key] = res
         return res
 
+    def tlaps(self, module: str, key: str, timeout=900):
+        """Bonus: check a TLAPS proof (spec/tlaps/<module>.tla).  Recorded in the evidence; never an alarm."""
+        import re as _re
+        import shutil
+        import subprocess
+        src = SPEC / "tlaps" / (module + ".tla")
+        wd = self.work.path("tlaps-" + module)
+        wd.mkdir(parents=True, exist_ok=True)
+        shutil.copy(src, wd / src.name)
+        try:
+            p = subprocess.run(["tlapm", src.name], cwd=str(wd), capture_output=True, text=True, timeout=timeout)
+            out = p.stdout + p.stderr
+            m = _re.search(r"All (\d+) obligations proved", out)
+            self.extra[key] = (f"all {m.group(1)} obligations proved" if m else "not proved")
+        except (subprocess.TimeoutExpired, OSError) as e:
+            self.extra[key] = "not run: " + type(e).__name__
+        return self.extra[key]
+
     # ------------------------------------------------------------------ verdicts
     def violation(self, clause: str, replay: dict, key: str | None = None):
         """Report a P-level violation observed on the real code (deduplicated by key)."""
